@@ -321,6 +321,106 @@ def escaped_json_probe(res):
             res.count("oracle:escaped-json-text-equivalent")
 
 
+# ---- the same text again, after the caller edited what it got: every call returns what a decoder returns for THAT text, and the
+# text stays equivalent to the decoded value in every carrier (nested documents, open targets that hand members on as decoded)
+AGAIN_TEXTS = ['{"name": "a", "tags": ["x"]}', '[{"id": 1}, {"id": 2}]', '{"a": {"b": {"c": [1, [2, [3]]]}}}', '[[1, 2], [3, [4]]]',
+               "[{'id': 1}, {'id': 2}]", "{'k': [1, 2], 'm': {'n': []}}", "({'a': [1]}, [2])", "{'s': {1, 2}}", '{"a": [], "b": {}}', '[[], [[]]]']
+AGAIN_TARGETS = ["LOAD", "STRLOAD", "typing.Dict[str, typing.Any]", "typing.List[dict]", "dict", "list", "typing.List[typing.Any]",
+                 "typing.Dict[str, object]", "Bag", "typing.Tuple[typing.Any, ...]"]
+AGAIN_SRC = """
+import dataclasses, typing
+@dataclasses.dataclass
+class Bag:
+    name: typing.Any = None
+    tags: typing.Any = None
+    a: typing.Any = None
+    k: typing.Any = None
+"""
+
+
+def _again_child(tx):
+    import ast
+    import copy
+    import json as _json
+    import sys
+    import types
+    import warnings
+    warnings.simplefilter("ignore")
+    import typelib
+    from typelib import serdes
+    mod = types.ModuleType("vm_c14_again")
+    sys.modules["vm_c14_again"] = mod
+    ns = mod.__dict__
+    exec(AGAIN_SRC, ns)
+    t = tx if tx in ("LOAD", "STRLOAD") else eval(tx, ns)
+
+    def edit(x, seen=None):
+        """change every mutable container reachable from x in place"""
+        if isinstance(x, dict):
+            for v in list(x.values()):
+                edit(v)
+            x["zz_edited"] = [0]
+        elif isinstance(x, list):
+            for v in x:
+                edit(v)
+            x.append("zz_edited")
+        elif isinstance(x, set):
+            x.add("zz_edited")
+        elif isinstance(x, tuple):
+            for v in x:
+                edit(v)
+        elif hasattr(x, "__dataclass_fields__"):
+            for f in x.__dataclass_fields__:
+                edit(getattr(x, f))
+
+    def call(v):
+        if t == "LOAD":
+            return serdes.load(v)
+        if t == "STRLOAD":
+            return serdes.strload(v)
+        return typelib.unmarshal(t, v)
+    carriers = (("str", lambda s_: s_), ("bytes", lambda s_: s_.encode()), ("bytearray", lambda s_: bytearray(s_.encode())),
+                ("memoryview(bytes)", lambda s_: memoryview(s_.encode())), ("memoryview(bytearray)", lambda s_: memoryview(bytearray(s_.encode()))))
+    bad, n = [], 0
+    for txt in AGAIN_TEXTS:
+        try:
+            decoded = _json.loads(txt)
+        except ValueError:
+            decoded = ast.literal_eval(txt)
+        if t in ("LOAD", "STRLOAD"):
+            want = repr(decoded)
+        else:
+            try:
+                want = repr(call(copy.deepcopy(decoded)))
+            except Exception:  # noqa: BLE001
+                want = "rejected"
+        for rnd in (1, 2, 3):
+            for name, mk in carriers:
+                try:
+                    r = call(mk(txt))
+                    got = repr(r)
+                except Exception:  # noqa: BLE001
+                    r, got = None, "rejected"
+                n += 1
+                if got != want:
+                    bad.append(f"call {rnd}: {name} {txt!r} -> {got[:160]}; the decoded value gives {want[:160]}")
+                edit(r)           # the caller edits its own result
+    return {"bad": bad, "n": n}
+
+
+def text_again_probe(res):
+    from .. import iso
+    outs = iso.map_isolated(_again_child, AGAIN_TARGETS, timeout=60.0)
+    for tx, o in zip(AGAIN_TARGETS, outs):
+        if not isinstance(o, dict) or "bad" not in o:
+            raise RuntimeError(f"harness: text-again probe failed: {tx}: {o}")
+        res.case({"family": "same-text-after-the-caller-edited-its-result", "target": tx}, True)
+        if o["bad"]:
+            res.failures.append({"what": f"{tx}: {o['bad'][0]} (+{len(o['bad']) - 1} more)", "input": {"again_target": tx}})
+        else:
+            res.count("oracle:text-equivalent-on-every-call", o["n"])
+
+
 def explore(ctx):
     res = Result()
     res.rule = RULE
@@ -416,6 +516,7 @@ def explore(ctx):
                 res.count("oracle:text-equivalent")
     escaped_json_probe(res)
     unicode_number_probe(res)
+    text_again_probe(res)
     return res
 
 
@@ -451,6 +552,11 @@ def replay(failure):
     if "uni_number" in inp:
         from .. import iso
         o = iso.map_isolated(_uni_child, [None], timeout=60.0)[0]
+        print(json.dumps(o, indent=1, ensure_ascii=True)[:3000])
+        return bool(o.get("bad")) if isinstance(o, dict) else True
+    if "again_target" in inp:
+        from .. import iso
+        o = iso.map_isolated(_again_child, [inp["again_target"]], timeout=60.0)[0]
         print(json.dumps(o, indent=1, ensure_ascii=True)[:3000])
         return bool(o.get("bad")) if isinstance(o, dict) else True
     if "esc_case" in inp:
